@@ -51,8 +51,8 @@ const (
 	fnTOTPValidate = "github.com/pquerna/otp/totp.Validate"
 	// the same check with its options written out (result #0 is the verdict)
 	fnTOTPValidateCustom = "github.com/pquerna/otp/totp.ValidateCustom"
-	fnExchangerVar = "var:ab/oauth2.exchanger"
-	fnExchange     = "(*golang.org/x/oauth2.Config).Exchange"
+	fnExchangerVar       = "var:ab/oauth2.exchanger"
+	fnExchange           = "(*golang.org/x/oauth2.Config).Exchange"
 
 	fnCurrentUser       = "(*ab.Authboss).CurrentUser"
 	fnCurrentUserP      = "(*ab.Authboss).CurrentUserP"
